@@ -43,7 +43,8 @@ FLOORS = {"overlap_shared_type": 0.25, "tie": 0.3, "outcome_ok": 0.2, "outcome_t
 TICK = 1 / 256
 RESP_TYPES = [26, 25, 21, 27]  # Switch, Sensor, BinarySensor, TextSensor state responses (all have `key`)
 FOREIGN = 24  # LightStateResponse
-CLOSE_ERR = {"eof": "SocketClosedAPIError", "reset": "ReadFailedAPIError", "discreq": "APIConnectionError", "garbage": "ProtocolAPIError"}
+CLOSE_ERR = {"eof": "SocketClosedAPIError", "reset": "ReadFailedAPIError", "discreq": "APIConnectionError", "garbage": "ProtocolAPIError",
+             "writefail": "SocketClosedAPIError"}
 
 
 def _pred(spec):
@@ -87,7 +88,10 @@ def model(case: dict, t0_tick: int = 0):
         events.append((m[0], 0, len(events), ("msg", m[1], m[2])))
     for c in case.get("cancels", []):
         events.append((c[0], 0, len(events), ("cancel", c[1])))
-    if case.get("close"):
+    armed_from = None
+    if case.get("close") and case["close"][1] == "writefail":
+        armed_from = case["close"][0]  # transport.write raises from this tick on: the next request write closes the connection
+    elif case.get("close"):
         events.append((case["close"][0], 0, len(events), ("close", case["close"][1])))
     # the list order of same-tick sim events is the order in which run_case registers them
     order = {"call": 0, "msg": 1, "cancel": 2, "close": 3}
@@ -121,6 +125,12 @@ def model(case: dict, t0_tick: int = 0):
             continue
         if k == "call":
             i = ev[1]
+            if closed is None and armed_from is not None and tick > armed_from:  # (calls of the arming tick itself are registered before it)
+                closed = (tick, "writefail")
+                for s in st_.values():
+                    if s["open"] and s["out"] is None:
+                        s["out"] = "connerr"
+                        s["end"] = tick
             if closed is not None:
                 st_[i]["out"] = "connerr-at-call"
                 st_[i]["end"] = tick
@@ -240,6 +250,9 @@ def run_case(case: dict) -> CaseResult:
 
             def do_close():
                 tr = sess.dsess.transport
+                if how == "writefail":
+                    tr.write_fail = ("raise", OSError(32, "Broken pipe"))
+                    return
                 if how == "eof":
                     tr.feed_eof()
                 elif how == "reset":
